@@ -140,12 +140,16 @@ TileValuesAt(W, nodes, q, t) == ProdExt(W, nodes, q, W.proj[t])
 
 MemHolders(W, nodes, m) == {j \in 1..(Len(nodes)-1) : IsMemHolder(W, nodes[j]) /\ nodes[j].mem = m}
 
+\* a persistent holder (field pers = TRUE) keeps one copy of its tensor per workload instance
+IsPers(n) == "pers" \in DOMAIN n /\ n.pers
+PersFactor(W, n) == IF IsPers(n) THEN W.ninst ELSE 1
+
 RECURSIVE SumBits(_, _, _, _)
 SumBits(W, nodes, S, lowered) ==
   IF S = {} THEN 0
   ELSE LET j == CHOOSE y \in S : TRUE
            q == IF lowered THEN FootprintPos(W, nodes, j) ELSE j
-       IN TileValuesAt(W, nodes, q, nodes[j].t) * W.bits[nodes[j].mem][nodes[j].t]
+       IN TileValuesAt(W, nodes, q, nodes[j].t) * W.bits[nodes[j].mem][nodes[j].t] * PersFactor(W, nodes[j])
           + SumBits(W, nodes, S \ {j}, lowered)
 
 \* in a single nest all holders are live together at the compute
@@ -301,7 +305,7 @@ AdvanceLoop ==
 \* add the element-liveness of one residency of holder position p to the timeline
 AddLive(lv, p) ==
   LET n == nodes[p]
-      bits == W.bits[n.mem][n.t]
+      bits == W.bits[n.mem][n.t] * PersFactor(W, n)
       F == first[p]
       L == last[p]
       outermost == ParentHolder(nodes, p, n.t) = 0
